@@ -1954,6 +1954,10 @@ class _AnsiSettingPoint:
                     setting = AnsiSetting(setting)
                 settings_out.append(setting)
             elif isinstance(setting, str):
+                if type(setting) is not str:
+                    # A str subclass such as AnsiStr: its text is the setting (its upper(), split() etc. would give
+                    # formatted strings again, which cannot be looked up)
+                    setting = getattr(setting, 'base_str', None) or str.__str__(setting)
                 settings_out.extend(__class__._scrub_ansi_format_string(setting, make_unique))
             elif isinstance(setting, int):
                 settings_out.append(__class__._scrub_ansi_format_int(setting))
